@@ -184,6 +184,41 @@ fn run(ctx: &Ctx, rep: &Report) {
                 rep.eval(4);
             }
         }
+        // instants INSIDE a leap second (chrono: second :59 with 10^9 or more nanoseconds). What
+        // number such an instant should map to can be argued (the :59 second or the following one),
+        // so both are allowed; but an instant that chrono orders before the epoch is "earlier" and
+        // must underflow, and nothing may panic
+        {
+            use chrono::{NaiveDate, TimeZone};
+            for (y, mo, d) in [(2016, 12, 31), (1969, 12, 31), (1972, 6, 30), (1969, 6, 30), (2038, 1, 19), (2106, 2, 7), (2105, 12, 31)] {
+                for frac in [0u32, 1, 500_000_000, 999_999_999] {
+                    for (h, mi) in [(23u32, 59u32), (3, 14), (6, 28)] {
+                        let Some(nd) = NaiveDate::from_ymd_opt(y, mo, d).and_then(|x| x.and_hms_nano_opt(h, mi, 59, 1_000_000_000 + frac)) else { continue };
+                        for off in [0i32, 19_800, -28_800] {
+                            let dt = chrono::FixedOffset::east_opt(off).unwrap().from_utc_datetime(&nd);
+                            rep.eval(1);
+                            let ts = dt.timestamp();
+                            let before_epoch = dt < DateTime::<Utc>::UNIX_EPOCH;
+                            let w = json!({"secs": ts, "nanos": 1_000_000_000u64 + frac as u64, "zone": off, "leap_second": true});
+                            match guard(|| Timestamp::try_from(dt)) {
+                                Err(p) => rep.violation(format!("panic:{}", p.site()), format!("converting the leap-second instant {dt:?} panics: {}", p.message), w, 0),
+                                Ok(got) => {
+                                    let ok = if before_epoch {
+                                        got == Err(TimestampError::Underflow)
+                                    } else {
+                                        [ts, ts + 1].iter().any(|t| got.map(|x| x.0) == expected(*t))
+                                    };
+                                    if !ok {
+                                        rep.violation(if before_epoch { "chrono:leap-second-before-epoch" } else { "chrono:leap-second" }, format!("the leap-second instant {dt:?} (timestamp {ts}, before the epoch: {before_epoch}) converts to {}", show(&got)), w, 0);
+                                    }
+                                    *local.entry("chrono.leap_second_instants".into()).or_insert(0) += 1;
+                                }
+                            }
+                        }
+                    }
+                }
+            }
+        }
         for dt in [DateTime::<Utc>::MIN_UTC, DateTime::<Utc>::MAX_UTC] {
             let r = guard(|| Timestamp::try_from(dt));
             rep.eval(1);
